@@ -2779,6 +2779,10 @@ def _iterate_flattened_values(value):
     return
 
   if isinstance(value, collections.abc.Mapping):
+    # Keys can hold references too (`{%macro: 1}`, `{@fn(): 2}`).
+    for nested_key in value:
+      for nested_nested_key in _iterate_flattened_values(nested_key):
+        yield nested_nested_key
     value = collections.abc.ValuesView(value)  # pytype: disable=wrong-arg-count
 
   if isinstance(value, collections.abc.Iterable):
